@@ -88,6 +88,8 @@ type FV struct {
 	frames    []*jumpFrame
 	loopOrd   map[ast.Stmt]int
 	boxed     map[types.Object]bool
+	localMaps map[types.Object]bool
+	freshMapRefs map[string]bool // refs returned by make(map)/empty literals
 	closures  map[string]*ast.FuncLit
 	binds     []map[types.Object]Value
 	defers    []deferred
@@ -102,6 +104,8 @@ type FV struct {
 	nAddrFun   int
 	quantN     int
 	siteCount  map[string]int
+	quantSorts map[string]string
+	countFuns  map[string]string
 	allocLimit Term
 
 	notes           []string
@@ -147,7 +151,7 @@ func (fv *FV) obligeNamed(e *Env, kind, name string, at ast.Node, desc string, c
 		name = fmt.Sprintf("%s#%d", name, n)
 	}
 	pos := ""
-	if at != nil {
+	if at != nil && !isNilNode(at) {
 		pos = fv.posStr(at.Pos())
 	}
 	goal := implies(e.pc, cond)
@@ -169,8 +173,12 @@ func (fv *FV) specTerm(e *Env, cl *Clause, sc *specCtx) Term {
 	}
 	savedInfo, savedSpec := fv.info, fv.spec
 	fv.info, fv.spec = cl.Info, sc
+	nErr := len(fv.specErrors)
 	v := fv.expr(e, cl.Expr)
 	fv.info, fv.spec = savedInfo, savedSpec
+	for i := nErr; i < len(fv.specErrors); i++ {
+		fv.specErrors[i] += fmt.Sprintf(" [in clause %s:%d: %s]", cl.File, cl.Line, cl.Text)
+	}
 	if v.T.Sort != sBool {
 		fv.specErr(fmt.Sprintf("%s:%d: clause is not boolean: %s", cl.File, cl.Line, cl.Text))
 		return tTrue
@@ -198,8 +206,8 @@ func (eng *Engine) newFV(u *FuncUnit) *FV {
 	fv := &FV{eng: eng, u: u, s: newScript(), info: u.Pkg.TypesInfo,
 		entryVals: map[types.Object]Value{}, oblNames: map[string]int{},
 		compSort: map[string]string{}, epochDefs: map[int]epochDef{}, loopOrd: map[ast.Stmt]int{},
-		boxed: map[types.Object]bool{}, closures: map[string]*ast.FuncLit{}, strs: map[string]Term{}, strVals: map[string]string{},
-		globalSeen: map[string]bool{}, siteCount: map[string]int{}, noteSeen: map[string]bool{},
+		boxed: map[types.Object]bool{}, localMaps: map[types.Object]bool{}, freshMapRefs: map[string]bool{}, closures: map[string]*ast.FuncLit{}, strs: map[string]Term{}, strVals: map[string]string{},
+		globalSeen: map[string]bool{}, siteCount: map[string]int{}, quantSorts: map[string]string{}, countFuns: map[string]string{}, noteSeen: map[string]bool{},
 		assumptionsUsed: map[string]bool{}, trustedUsed: map[string]bool{}, opaqueUsed: map[string]bool{}, calleesUsed: map[string]bool{}}
 	fv.s.declConst("str_empty", sStr)
 	fv.strs[""] = Term{"str_empty", sStr}
@@ -269,7 +277,7 @@ func (fv *FV) run() {
 		}
 		return true
 	})
-	// closures capturing and assigning outer scalars are treated through inlining only
+	fv.findLocalMaps(u.Decl.Body)
 
 	declare := func(v *types.Var, base string) {
 		if v == nil || v.Name() == "_" {
@@ -544,7 +552,7 @@ func (fv *FV) checkFrame(ex *Exit, k int, at ast.Node) {
 // Discharge.
 
 func (eng *Engine) discharge(fv *FV) {
-	dir := filepath.Join(eng.workDir, sanitize(fv.u.Name()))
+	dir := filepath.Join(eng.workDir, strings.ReplaceAll(sanitize(fv.u.Name()), "/", "_"))
 	os.MkdirAll(dir, 0o755)
 	var wg sync.WaitGroup
 	sem := make(chan struct{}, eng.parallel)
@@ -568,7 +576,7 @@ func (eng *Engine) discharge(fv *FV) {
 				return
 			}
 			if eng.keepSMT {
-				os.WriteFile(filepath.Join(dir, fmt.Sprintf("%03d_%s.smt2", i, sanitize(o.Name))), []byte(text), 0o644)
+				os.WriteFile(filepath.Join(dir, fmt.Sprintf("%03d_%s.smt2", i, strings.ReplaceAll(sanitize(o.Name), "/", "_"))), []byte(text), 0o644)
 			}
 			if o.Kind == "canary" {
 				// a canary must NOT be refutable: a short run that does not answer unsat is a pass
@@ -595,4 +603,9 @@ func (eng *Engine) discharge(fv *FV) {
 		os.RemoveAll(dir)
 	}
 	sort.SliceStable(fv.obls, func(i, j int) bool { return false })
+}
+
+func isNilNode(n ast.Node) bool {
+	defer func() { recover() }()
+	return n == nil || !n.Pos().IsValid() && false
 }
